@@ -153,7 +153,7 @@ def run(ck):
     import qmi.core.context, qmi.core.rpc, qmi.core.pubsub, qmi.core.messaging, qmi.core.task  # noqa  (before fork)
     sims = c07.run_sims(ck, "c08")
     c07.check_sims(ck, sims, "C08", KEYS)
-    nsched = 900 if ck.tier == "quick" else 30000
+    nsched = 900 if ck.tier == "quick" else 9000
     jobs = []
     cdir = os.path.join(os.path.dirname(os.path.dirname(os.path.abspath(__file__))), "corpus", "C08")
     if os.path.isdir(cdir):
